@@ -1,11 +1,14 @@
 import CgreenModel.Model.Vector
+import CgreenModel.Lemmas.Lines
 /-!
 # C20 — cgreen's own bookkeeping is safe for any count
 `CgreenVector` (expectation queue, constraint lists, parameter names, the runner's discovered-test
 list): for every history of operations and every growth step, every slot the code touches is inside
 the allocation, and the vector behaves like the plain list it represents — in particular at
-`step−1`, `step`, `step+1` elements. Fixed-size buffers and name lengths are covered by the sanitizer
-sweep of the check (DESIGN.md), not by a theorem.
+`step−1`, `step`, `step+1` elements. The line buffer with which cgreen-runner reads a library's symbol listing
+(tools/discoverer.c: `read_whole_line`) returns every line whole whatever its length (`C20_line_of_any_length`,
+`C20_listing_read_whole`). Other fixed-size buffers and name lengths are covered by the sanitizer sweep of the
+check (DESIGN.md), not by a theorem.
 -/
 namespace Cgreen
 open Vec
@@ -220,5 +223,42 @@ theorem C20_F07_witness :
   refine ⟨_, _, _, rfl, ?_⟩; decide
 
 example : (run 2 {} [.add 5, .add 6, .add 7, .remove 0, .get 1, .remove 5]).2.1 = [none, none, none, some 5, some 7, none] := by decide
+
+/-! ### The discoverer's line buffer -/
+open Lines in
+/-- `read_whole_line`, for a buffer of any size from 3 bytes and a line of any length (with or without a line
+feed at its end): the buffer ends up holding exactly the first line of the stream, the stream is left at the start
+of the next line, every piece was read into memory the buffer owned at that moment, and the buffer (never
+smaller than before) has room for the line and its terminator. -/
+theorem C20_line_of_any_length (size : Nat) (s : Sel.Str) (hs : s ≠ []) (hsize : 3 ≤ size) :
+    ∃ size', size ≤ size' ∧ (firstLine s).length + 2 ≤ size' ∧
+      readWholeLine size s = ⟨some (firstLine s), size', afterLine s, true⟩ :=
+  readWholeLine_spec size s hs hsize
+
+open Lines in
+/-- Reading a whole listing: the lines handed to the discoverer are the listing cut after each line feed —
+independent of the buffer's initial size, so a line that exactly fills the buffer (or any multiple of it) is
+treated as a short one is — and no piece was read outside the buffer. -/
+theorem C20_listing_read_whole (size : Nat) (s : Sel.Str) (hsize : 3 ≤ size) :
+    allLines (s.length + 1) size s = (splitLines s, true) :=
+  allLines_spec _ size s hsize (Nat.le_refl _)
+
+open Lines in
+/-- Nothing of the listing is lost, repeated or moved to another line. -/
+theorem C20_lines_partition (s : Sel.Str) : (splitLines s).flatten = s := by
+  induction s with
+  | nil => rfl
+  | cons c s ih =>
+    by_cases hc : c = '\n'
+    · simp [splitLines, hc, ih]
+    · simp only [splitLines, hc, if_false]
+      cases h : splitLines s with
+      | nil => rw [h] at ih; simp at ih; simp [← ih]
+      | cons l ls => rw [h] at ih; simp at ih ⊢; exact ih
+
+open Lines in
+example : readWholeLine 4 "abcdefg\nxy".toList = ⟨some "abcdefg\n".toList, 16, "xy".toList, true⟩ := by decide +kernel
+open Lines in
+example : (readWholeLine 4 "ab\nxy".toList).line = some "ab\n".toList := by decide +kernel   -- exactly fills the buffer
 
 end Cgreen
